@@ -186,7 +186,7 @@ def handshake_family(work, name, family, tier, seed, opts=None, workers=16, metr
                     o.write(line)
                     continue
                 d = json.loads(line)
-                d["opts"] = opts
+                d["opts"] = dict(d.get("opts") or {}, **opts)
                 o.write(json.dumps(d) + "\n")
     if metrics:
         traces, info = replay_sharded_procs(src, work, name)
